@@ -558,25 +558,41 @@ def _global_rmse(rc: RuleCtx):
     i = b.idx
     benv = dict(env)
     benv.update(b.bindings)
-    carried = [nme for nme in stored_names(ast.Module(body=loop.body, type_ignores=[])) if nme in env]
-    lnames = [n for n in carried if isinstance(env.get(n), Rat) and env[n].equals(_at(red, C(0)))]
-    if len(lnames) != 1:
-        res.violation("U6", mod, fi.name, fi.node, "the first segment of the global RMSE does not start at reduced[0]", str(carried), "left = reduced[0]", construct="rmse left init")
-        return
-    lname = lnames[0]
+    tnames = set(b.bindings)
+    carried = [nme for nme in stored_names(ast.Module(body=loop.body, type_ignores=[])) if nme in env and nme not in tnames]
     for nme in carried:
         benv[nme] = ev.symbol(nme)
-    left = benv[lname]
     out = ev.eval_loop_body(fi, loop, benv)
-    right = out.env.get(lname)
-    e_idx = None
-    if isinstance(right, Rat):
-        ra_ = single_atom(right)
-        if ra_ is not None and ra_.name == "at" and ra_.args[0].equals(red):
-            e_idx = ra_.args[1]
-    if e_idx is None or (e_idx - i).is_const() is None or (b.lo + (e_idx - i)).is_const() != 1 or not (b.hi + (e_idx - i)).equals(sym("R")):
-        res.violation("U6", mod, fi.name, loop, "the global RMSE does not run over the consecutive breakpoint pairs", _short(right, 80), "left <- reduced[k], k = 1..len(reduced)-1",
+    # the segment of one iteration: the key (left, right) under which its error is cached
+    keys = [e.args[0] for e in out.events if e.kind == "store" and e.target == "cache" and isinstance(e.args[0], Vec) and len(e.args[0].items) == 2]
+    if not keys:
+        raise AnalysisError(f"{fi.qualname}: no cache[(left, right)] store in the segment loop - shape not recognised")
+    left, right = keys[0].items
+    if not (isinstance(left, Rat) and isinstance(right, Rat)):
+        raise AnalysisError(f"{fi.qualname}: segment key is not a pair of indices")
+    ra_ = single_atom(right)
+    e_idx = ra_.args[1] if (ra_ is not None and ra_.name == "at" and ra_.args[0].equals(red)) else None
+    shift = (e_idx - i).is_const() if e_idx is not None else None
+    if shift is None or (b.lo + C(shift)).is_const() != 1 or not (b.hi + C(shift)).equals(sym("R")):
+        res.violation("U6", mod, fi.name, loop, "the global RMSE does not run over the consecutive breakpoint pairs", _short(right, 80), "right = reduced[k], k = 1..len(reduced)-1",
                       construct="rmse segment chain")
+        return
+    la_ = single_atom(left)
+    if la_ is not None and la_.kind == "sym" and la_.name in carried:
+        # the left end is carried from the previous iteration: reduced[0] at first, then the previous right end
+        lname = la_.name
+        if not (isinstance(env.get(lname), Rat) and env[lname].equals(_at(red, C(0)))):
+            res.violation("U6", mod, fi.name, fi.node, "the first segment of the global RMSE does not start at reduced[0]", _short(env.get(lname), 60), "left = reduced[0]",
+                          construct="rmse left init")
+            return
+        nxt = out.env.get(lname)
+        if not (isinstance(nxt, Rat) and nxt.equals(right)):
+            res.violation("U6", mod, fi.name, loop, "the global RMSE does not run over the consecutive breakpoint pairs: the next segment does not start where this one ends",
+                          _short(nxt, 80), "left = right", construct="rmse segment chain")
+            return
+    elif not left.equals(_at(red, e_idx - C(1))):
+        res.violation("U6", mod, fi.name, loop, "the global RMSE does not run over the consecutive breakpoint pairs (left end is not the previous breakpoint)",
+                      f"({_short(left, 60)}, {_short(right, 60)})", "(reduced[k-1], reduced[k])", construct="rmse segment chain")
         return
     key = Vec([left, right])
     xs = anf.opaque("slice", pts.items[0], left, right + C(1), array=True)
